@@ -26,12 +26,17 @@ CFG = PropCfg(
      # the vector parser of every reader on chosen decrypted bytes, against the transcription the theorem is about
      SuiteCfg("C10vec", stateless=True, parts_thorough=4, nontrivial=lambda ops, outs: True,
               classify=lambda op, out: out.split(" ")[0]),
+     # the real hopserver.NewHopServer with one virtual host and no fallback, asked for names of every kind (C01's harness)
+     SuiteCfg("C10sni", binary="C01", stateless=True, parts_thorough=1, nontrivial=lambda ops, outs: True),
      # dishonest counterparts (C01's harness): after each of them the same server must serve an honest client (a=1)
      SuiteCfg("C01", binary="C01", stateless=True, parts_thorough=8, nontrivial=lambda ops, outs: True)],
     rule="suite C01 (C01's harness): every dishonest-counterpart handshake (certificates of wrong type, expired, self-signed, "
          "foreign root, another key; every server policy incl. authorized keys and callbacks; both modes) is followed by "
          "a handshake of an honest listed client with the same server, which must succeed: a counterpart that is never "
          "authenticated must not wedge the endpoint (a lock or state left behind on a rejection path). "
+         "suite C10sni (C01's harness): a real hopserver.NewHopServer with one virtual host and no `*` block; real clients "
+         "over loopback UDP ask for the name, another name, names with an unknown type byte, the empty name: the server "
+         "serves or refuses, and an honest client is served afterwards (the process is still there). "
          "suite C10vec: transport.DecryptCertificates / readVector on chosen decrypted bytes (two Cyclist objects in the "
          "same state: one encrypts the bytes, the other is handed to the function): every total length <= 14 with every "
          "pair of announced lengths up to total+2, and random buffers up to 4 KiB with announced lengths at the exact "
